@@ -96,4 +96,77 @@ def gR : Geo := { n0 := 70, n1 := 66, n2 := 9, b0 := 4, b1 := 4, b2 := 1024, u :
 example : gR.Valid ∧ supported gR = true ∧ (outGeo gR).Valid := by decide
 example : supported { gR with u := 32 } = false := by decide
 
+/-- the re-blocked data section holds exactly `256` units for every 64×64×4 block of the output's padded block grid: at
+16 bytes a unit, one 4096-byte disk block per output block and nothing else (so the footer starts where a reader of the
+output geometry looks for it) -/
+theorem units_length (g : Geo) :
+    (units g).length = (outGeo g).NB0 * ((outGeo g).NB1 * ((outGeo g).NB2 * 256)) := by
+  unfold units
+  simp only [flatMap_range_map, List.length_map, List.length_range]
+
+theorem data_section_bytes (g : Geo) :
+    (units g).length * 16 = 4096 * ((outGeo g).NB0 * ((outGeo g).NB1 * (outGeo g).NB2)) := by
+  rw [units_length]
+  generalize (outGeo g).NB0 = a
+  generalize (outGeo g).NB1 = b
+  generalize (outGeo g).NB2 = c
+  ring
+/-- a unit row the re-blocker copies from tile `i` exists in the source: `16·i + n` is below the source's padded unit count -/
+theorem tile_unit_in_source (N i n : Nat) (hi : i < pad N 64 / 64) (hn : n < count N i) : 16 * i + n < pad N 4 / 4 := by
+  unfold count at hn
+  unfold pad at *
+  split at hn <;> split at hi <;> split <;> omega
+/-- **the re-blocker reads inside the source's data section**: every source unit index it copies is below the source's
+unit count `(P0/4)·(P1/4)·(P2/4)` — partial tiles never reach beyond the source's padded extent -/
+theorem source_units_in_range (g : Geo) (hs : supported g = true) (k s : Nat)
+    (h : (units g)[k]? = some (some s)) : s < (g.P0 / 4) * (g.P1 / 4) * (g.P2 / 4) := by
+  have hs' := hs
+  simp only [supported, Bool.and_eq_true, beq_iff_eq] at hs'
+  obtain ⟨⟨⟨h0, h1⟩, h2⟩, hu⟩ := hs'
+  unfold units at h
+  simp only [flatMap_range_map] at h
+  obtain ⟨hlt, heq⟩ := List.getElem?_eq_some_iff.mp h
+  have hlt' : k < (outGeo g).NB0 * ((outGeo g).NB1 * ((outGeo g).NB2 * 256)) := by
+    have := hlt
+    simp only [List.length_map, List.length_range] at this
+    exact this
+  simp only [List.getElem_map, List.getElem_range] at heq
+  have e0 : (outGeo g).NB0 = pad g.n0 64 / 64 := rfl
+  have e1 : (outGeo g).NB1 = pad g.n1 64 / 64 := rfl
+  have e2 : (outGeo g).NB2 = pad g.n2 4 / 4 := rfl
+  have p0 : g.P0 = pad g.n0 4 := by unfold Geo.P0; rw [h0]
+  have p1 : g.P1 = pad g.n1 4 := by unfold Geo.P1; rw [h1]
+  have p2 : g.P2 = pad g.n2 1024 := by unfold Geo.P2; rw [h2]
+  split at heq
+  · rename_i hc
+    simp only [Bool.and_eq_true, decide_eq_true_eq] at hc
+    have hs := Option.some.inj heq
+    rw [← hs]
+    set A := (outGeo g).NB1 * ((outGeo g).NB2 * 256) with hA
+    set B := (outGeo g).NB2 * 256 with hB
+    have hi : k / A < pad g.n0 64 / 64 := by rw [← e0]; exact Nat.div_lt_of_lt_mul (by rw [Nat.mul_comm]; exact hlt')
+    have hBpos : 0 < B := by
+      rcases Nat.eq_zero_or_pos B with hz | hz
+      · rw [hA, hz] at hlt'; simp at hlt'
+      · exact hz
+    have hApos : 0 < A := by
+      rcases Nat.eq_zero_or_pos A with hz | hz
+      · rw [hz] at hlt'; simp at hlt'
+      · exact hz
+    have hx : k % A / B < pad g.n1 64 / 64 := by
+      rw [← e1]; exact Nat.div_lt_of_lt_mul (by rw [Nat.mul_comm]; exact Nat.mod_lt _ hApos)
+    have hz : k % A % B / 256 < pad g.n2 4 / 4 := by
+      rw [← e2]; exact Nat.div_lt_of_lt_mul (by rw [Nat.mul_comm]; exact Nat.mod_lt _ hBpos)
+    have r0 := tile_unit_in_source g.n0 _ _ hi hc.1
+    have r1 := tile_unit_in_source g.n1 _ _ hx hc.2
+    have r2 : k % A % B / 256 < g.P2 / 4 := by
+      rw [p2]; unfold pad at hz ⊢; split at hz <;> split <;> omega
+    rw [p0, p1]
+    exact lt_of_mixed _ _ _ _ (lt_of_mixed _ _ _ _ r0 r1) r2
+  · cases heq
+
+-- non-vacuity: a 70×5×9 cube (two inline tiles, the second partial) — 2·1·3·256 output units, source has 18·2·256 units
+example : supported ⟨70, 5, 9, 4, 4, 1024, 16⟩ = true ∧ (units ⟨70, 5, 9, 4, 4, 1024, 16⟩).length = 1536 := by decide +kernel
+example : (units ⟨70, 5, 9, 4, 4, 1024, 16⟩)[3 * 256 + 16 + 1]? = some (some (((16 + 1) * 2 + 1) * 256 + 0)) := by decide +kernel
+
 end Sgz.Props.C12
